@@ -1,24 +1,36 @@
 import PetgraphModel.Common
 import PetgraphModel.Model.Matrix
 import PetgraphModel.Spec.MatrixSimpleGraph
+import PetgraphModel.Spec.MatrixMachine
 /-
-C04 driver: runs the mirror model (`Matrix.State`) and the abstract simple graph
-(`MatrixSpec.G`) side by side with the implementation's answers.
+C04 driver: runs the mirror model (`Matrix.State`) and the abstract machine of the property
+(`MatrixProofs.specStep` on the simple graph `MatrixSpec.G`, `Spec/MatrixMachine.lean` — the very function
+the theorems are about) side by side with the implementation's answers.
 
 * exact part: the mirror model's answer must equal the implementation's, byte for byte
   (iteration orders, the id `add_node` hands out, `node_bound`, …) — otherwise `MODELDIFF`;
-* spec part: the implementation's answer is judged against the simple graph, as *sets* wherever the
-  property fixes no order, and only where the property determines the answer — otherwise `SPECFAIL`.
+* spec part: the implementation's answer is judged against the simple graph — otherwise `SPECFAIL`.
+  Since wave 5 the iteration ORDER is part of the judged specification (`G.idsAsc`, `G.nodesAsc`,
+  `G.succAsc`, `G.predAsc`, `G.edgeRefsAsc`: ascending ids, row-major edges; proved equal to the mirror's
+  iterators in `C04_iteration_order`); a wrong order is reported apart from a wrong set.
+* run-time checks (G-A): every mutating call is checked to be inside the property's quantifier
+  (`validB` ⇒ `Valid`, `C04_valid_check`) before it is judged; `extend_with_edges`/`from_edges` only on a
+  graph without vacancy (`noVacancyB`); probes only on pairs that are not edges (`notEdgeB`); `zprobe` only
+  on an existing edge of a `NotZero` graph (`zeroMutB`).  They restrict the generated input, so a failure
+  is answered `SPECFAIL generator left the proved range: …`.
 
 Calls whose endpoints are not live nodes are outside the property's quantifier.  The ones whose
 answer follows from "a node that does not exist has no edges" (`has_edge`, `remove_edge`,
 `neighbors`, `remove_node`, …) are judged; the edge-*writing* ones (`probe …` lines: the call
-followed by `try_remove_edge` of the same pair, so nothing stays behind) are compared exactly only.
-`edges_directed(_, Incoming)` is judged up to the orientation of the yielded pair (that orientation
-is finding D6 of property C06, not C04's business).
+followed by `try_remove_edge` of the same pair, so nothing stays behind — `C04_probe_undone` — and
+`capscan` lines, which read the matrix capacity off `try_update_edge` on ids beyond the bound) are compared
+exactly only.  `zprobe` (the sentinel written through `edge_weight_mut` of a `NotZero` graph, outside the
+documented use) is a recorded observation: exact comparison with the model (`C04_zero_through_mut`), it
+ends the case.  `edges_directed(_, Incoming)` is judged up to the orientation of the yielded pair (that
+orientation is finding D6 of property C06, not C04's business).
 -/
 namespace PetgraphModel.C04
-open PetgraphModel PetgraphModel.Matrix PetgraphModel.MatrixSpec
+open PetgraphModel PetgraphModel.Matrix PetgraphModel.MatrixSpec PetgraphModel.MatrixProofs
 
 structure DState where
   m : Matrix.State := { dir := true, nz := false, ixMax := 65535 }
@@ -26,6 +38,10 @@ structure DState where
   /-- a panicking `add_edge` on an existing edge: the property does not say which of the two
   weights the edge has afterwards; resolved by the next `erefs` line -/
   pend : Option ((Nat × Nat) × Int × Int) := none
+  /-- `node_count()` and `node_bound()` of the implementation's last `counts` line -/
+  implNB : Option (Nat × Nat) := none
+  /-- a `zprobe` has been made: the state is outside the property's domain, the case is over -/
+  over : Bool := false
 
 /-! ### printing (must agree with `harness/src/c04.rs`) -/
 
@@ -101,8 +117,6 @@ def field (fs : List String) (k : String) : Option String :=
 def sortNat (l : List Nat) : List Nat := l.mergeSort (fun a b => a ≤ b)
 def leNI (a b : Nat × Int) : Bool := a.1 < b.1 || (a.1 == b.1 && a.2 ≤ b.2)
 def sortNI (l : List (Nat × Int)) : List (Nat × Int) := l.mergeSort leNI
-def leKW (a b : (Nat × Nat) × Int) : Bool :=
-  a.1.1 < b.1.1 || (a.1.1 == b.1.1 && (a.1.2 < b.1.2 || (a.1.2 == b.1.2 && a.2 ≤ b.2)))
 def sortKW (l : List ((Nat × Nat) × Int)) : List ((Nat × Nat) × Int) := l.mergeSort leKW
 
 def expect (want impl : String) : Option String :=
@@ -117,15 +131,17 @@ def orElse (a b : Option String) : Option String := match a with | some x => som
 
 /-! ### spec-level judges of the observers -/
 
-/-- `neighbors(a)`-like answer: the set of ids must be `want` (no repetitions: a simple graph) -/
+/-- `neighbors(a)`-like answer: must be `want` (ascending, no repetitions: a simple graph) -/
 def judgeIds (what : String) (impl : String) (want : List Nat) : Option String :=
   match parseNatList impl with
   | none => some s!"{what}: unreadable answer [{impl}]"
-  | some l => if sortNat l == sortNat want then none
-    else some s!"{what} = [{impl}] but the graph says {showNats (sortNat want)}"
+  | some l => if l == want then none
+    else if sortNat l == want then
+      some s!"iteration order: {what} = [{impl}] has the right members but is not ascending"
+    else some s!"{what} = [{impl}] but the graph says {showNats want}"
 
-/-- `edges(a)`-like answer: every item has source `a`; the set of (target, weight) must be `want`.
-With `anyOrientation` an item may also be `(other, a, w)`. -/
+/-- `edges(a)`-like answer: every item has source `a`; the (target, weight) list must be `want`
+(ascending in the target).  With `anyOrientation` an item may also be `(other, a, w)`. -/
 def judgeEdgesOf (what : String) (a : Nat) (impl : String) (want : List (Nat × Int))
     (anyOrientation : Bool) : Option String :=
   match parseTriples impl with
@@ -135,46 +151,50 @@ def judgeEdgesOf (what : String) (a : Nat) (impl : String) (want : List (Nat × 
       if s == a then some (t, w) else if anyOrientation && t == a then some (s, w) else none
     if others.any (·.isNone) then some s!"{what} = [{impl}] contains an edge whose source is not {a}"
     else
-      let got := sortNI (others.filterMap id)
-      if got == sortNI want then none
-      else some s!"{what} = [{impl}] but the graph says {showPairs (sortNI want)}"
+      let got := others.filterMap id
+      if got == want then none
+      else if sortNI got == sortNI want then
+        some s!"iteration order: {what} = [{impl}] has the right members but is not ascending"
+      else some s!"{what} = [{impl}] but the graph says {showPairs want}"
 
+/-- parsed `edge_references()`: the items with normalised keys, in the order of the answer -/
 def judgeEdgeRefs (d : DState) (impl : String) : Option String × Option (List ((Nat × Nat) × Int)) :=
   match parseTriples impl with
   | none => (some s!"edge_references: unreadable answer [{impl}]", none)
-  | some l =>
-    let got := sortKW (l.map fun (s, t, w) => (key d.g.directed s t, w))
-    (none, some got)
+  | some l => (none, some (l.map fun (s, t, w) => (key d.g.directed s t, w)))
 
 /-! ### the step function -/
 
 def natArg (s : String) : Nat := s.toNat?.getD 0
 def intArg (s : String) : Int := s.toInt?.getD 0
 
-def ixMaxOf (w : String) : Nat := if w == "w=8" then 255 else 65535
+/-- `<Ix as IndexType>::max().index()` of the index width of the case -/
+def ixMaxOf (w : String) : Option Nat :=
+  if w == "w=8" then some 255
+  else if w == "w=16" then some 65535
+  else if w == "w=32" then some 4294967295
+  else if w == "w=64" then some 18446744073709551615
+  else none
+
+def leftRange (why : String) : String := s!"SPECFAIL generator left the proved range: {why}"
 
 /-- run one mirror-model operation -/
 def runOp (d : DState) (op : Op) : DState × String :=
   let (m', o) := Matrix.step d.m op
   ({ d with m := m' }, showOut o)
 
+/-- **a mutating call of the alphabet**: checked to be inside the property's quantifier (`validB`), then
+the mirror model runs it and the spec advances by `specStep` (with the id the implementation handed out);
+the implementation's answer must be the abstract machine's -/
+def mutate (d : DState) (what : String) (op : Op) (id : Nat) (impl : String) : DState × String :=
+  if !(validB d.m.nz d.g op) then
+    (d, leftRange s!"{what} is outside the property's quantifier (edge-writing calls between live nodes; no zero through edge_weight_mut of a NotZero graph)")
+  else
+    let (d', ms) := runOp d op
+    let (g', so) := specStep d.m.nz d.m.ixMax d.g op id
+    ({ d' with g := g' }, verdict (expect (showOut so) impl) ms impl)
+
 def bothLive (d : DState) (a b : Nat) : Bool := d.g.live a && d.g.live b
-
-def zeroRejected (d : DState) (w : Int) : Bool := d.m.nz && w == 0
-
-/-- spec effect + expected answer of `extend_with_edges` on a graph without vacancies -/
-def specExtend (nz : Bool) : G → List (Nat × Nat × Int) → G × String × Option ((Nat × Nat) × Int × Int)
-  | g, [] => (g, "ok", none)
-  | g, (a, b, w) :: rest =>
-    let nx := max a b
-    let n := g.nodeCount
-    let g1 := (List.range (nx + 1 - n)).foldl (fun g i => g.addNode (n + i) 0) g
-    if nz && w == 0 then (g1, "panic", none)
-    else match g1.weight a b with
-      | some old => (g1, "panic", some (key g1.directed a b, old, w))
-      | none => specExtend nz (g1.setEdge a b w) rest
-
-def contiguous (g : G) : Bool := sortNat g.ids == List.range g.nodeCount
 
 def edgeOpOf (f : String) (a b : Nat) (w : Int) : Option Op :=
   match f with
@@ -199,9 +219,9 @@ def rowStep (d : DState) (x : String) (impl : String) : DState × String :=
     let ms := base ++ dirPart ++
       s!" he={showBits (liveM.map fun x => hasEdge m a x)} hr={showBits (liveM.map fun x => hasEdge m x a)} gw={showOptCells (liveM.map fun x => getEdgeWeight m a x)}"
     let fs := splitWords impl
-    let liveS := sortNat d.g.ids
-    let sc := d.g.succ a
-    let pr := d.g.pred a
+    let liveS := d.g.idsAsc
+    let sc := d.g.succAsc a
+    let pr := d.g.predAsc a
     let get (k : String) : String := (field fs k).getD "?"
     let spec :=
       orElse (judgeIds s!"neighbors({a})" (get "nb") (sc.map (·.1))) <|
@@ -226,58 +246,98 @@ def rowStep (d : DState) (x : String) (impl : String) : DState × String :=
         | none => some s!"row: unreadable gw [{impl}]")
     (d, verdict spec ms impl)
 
+/-- `capscan lo hi`: for every id `x` in `lo..hi` (none of them a live node) `try_update_edge(x, x, 1)`
+followed by `try_remove_edge(x, x)`; the bit says whether the first call was `Ok` — it is iff `x` is below
+the matrix capacity.  Outside the property's quantifier: compared exactly only. -/
+def capScan (d : DState) : Nat → Nat → DState × List Bool
+  | _, 0 => (d, [])
+  | x, k + 1 =>
+    let (d1, s1) := runOp d (.tryUpdateEdge x x 1)
+    let (d2, _) := runOp d1 (.tryRemoveEdge x x)
+    let (d3, bits) := capScan d2 (x + 1) k
+    (d3, s1.startsWith "ok" :: bits)
+
 def step (d : DState) (req : List String) (impl : String) : DState × String :=
   let bad : DState × String := (d, s!"SPECFAIL bad request {req}")
   match req with
   | ["case", k, dir, null, w] =>
     let isDir := dir == "dir"
-    ({ m := { dir := isDir, nz := null == "nz", ixMax := ixMaxOf w }, g := G.empty isDir }, s!"case {k}")
+    match ixMaxOf w with
+    | some ixMax => ({ m := { dir := isDir, nz := null == "nz", ixMax := ixMax }, g := G.empty isDir }, s!"case {k}")
+    | none => ({}, s!"SPECFAIL bad request {req}: unknown index width")
+  | _ =>
+  if d.over then (d, "SPECFAIL harness: a call after zprobe (the state is outside the property's domain)") else
+  match req with
   | ["row", x] => rowStep d x impl
   | ["new", ctor] =>
     if ctor == "default" || ctor == "new" || ctor == "new_undirected" then
       match withCapacity d.m.dir d.m.nz d.m.ixMax 0 with
-      | .ok m => ({ d with m := m, g := G.empty d.m.dir, pend := none }, verdict (expect "ok" impl) "ok" impl)
+      | .ok m => ({ d with m := m, g := G.empty d.m.dir, pend := none, implNB := none }, verdict (expect "ok" impl) "ok" impl)
       | .error e => (d, verdict (expect "ok" impl) (showFault e) impl)
     else bad
   | ["new", "with_capacity", k] =>
+    if !(capacityFitsB d.m.ixMax (natArg k)) then
+      (d, leftRange s!"with_capacity({k}) beyond the index type (debug_assert of with_capacity_and_hasher)")
+    else
     match withCapacity d.m.dir d.m.nz d.m.ixMax (natArg k) with
-    | .ok m => ({ d with m := m, g := G.empty d.m.dir, pend := none }, verdict (expect "ok" impl) "ok" impl)
+    | .ok m => ({ d with m := m, g := G.empty d.m.dir, pend := none, implNB := none }, verdict (expect "ok" impl) "ok" impl)
     | .error e => (d, verdict (expect "ok" impl) (showFault e) impl)
+  | ["capscan", lo, hi] =>
+    let lo := natArg lo
+    let hi := natArg hi
+    if (List.range (hi - lo)).any (fun i => d.g.live (lo + i) || !(notEdgeB d.g (lo + i) (lo + i))) then
+      (d, leftRange "capscan over a live node / an existing edge")
+    else
+      let (d', bits) := capScan d lo (hi - lo)
+      (d', cmpExact (showBits bits) impl)
+  | ["zprobe", x, y] =>
+    let a := natArg x
+    let b := natArg y
+    if !(zeroMutB d.m.nz d.g a b) then
+      (d, leftRange s!"zprobe {a} {b}: not an existing edge of a NotZero graph")
+    else
+      let (m', o) := Matrix.step d.m (.setEdgeWeight a b 0)
+      let ms := s!"{showOut o} he={showBool (hasEdge m' a b)} gw={showOptInt (getEdgeWeight m' a b)} ec={m'.nbEdges} er={(edgeRefs m').length}"
+      ({ d with m := m', over := true }, cmpExact ms impl)
   | [f, l] =>
     if f == "from_edges" || f == "extend_with_edges" then
       match parseTriples l with
       | none => bad
       | some es =>
-        let d0 : DState := if f == "from_edges" then
+        let isFrom := f == "from_edges"
+        let d0 : DState := if isFrom then
             match withCapacity d.m.dir d.m.nz d.m.ixMax 0 with
-            | .ok m => { d with m := m, g := G.empty d.m.dir, pend := none }
+            | .ok m => { d with m := m, g := G.empty d.m.dir, pend := none, implNB := none }
             | .error _ => d
           else d
-        if !(contiguous d0.g) then (d0, "SPECFAIL harness: extend_with_edges on a graph with vacancies")
+        let implNoVacancy := match d0.implNB with | some (n, b) => n == b | none => isFrom
+        if !(noVacancyB d0.m) || !(contigB d0.g) || !implNoVacancy then
+          (d0, leftRange s!"{f} on a graph with a vacancy (node_bound != node_count): the ids of the nodes it adds are not determined by the edges")
         else
-          let (m', o) := extendWithEdges d0.m es
-          let (g', want, pend) := specExtend d0.m.nz d0.g es
-          ({ d0 with m := m', g := g', pend := pend }, verdict (expect want impl) (showOut o) impl)
+          let (m', o) := if isFrom then fromEdges d0.m.dir d0.m.nz d0.m.ixMax es else extendWithEdges d0.m es
+          let (g', so) := specExtend d0.m.nz d0.m.ixMax d0.g es
+          let pend := if so == Out.panic then extendPanicEdge d0.m.nz d0.m.ixMax d0.g es else none
+          -- the driver does not demand that the weight was overwritten before `add_edge`'s assertion failed
+          let g'' : G := match pend with
+            | some (k, old, _) => { g' with edges := g'.edges.map fun e => if e.1 == k then (k, old) else e }
+            | none => g'
+          ({ d0 with m := m', g := g'', pend := pend }, verdict (expect (showOut so) impl) (showOut o) impl)
     else
     let a := natArg l
     match f with
     | "add_node" | "try_add_node" =>
       let isTry := f == "try_add_node"
-      let (d', ms) := runOp d (if isTry then .tryAddNode (intArg l) else .addNode (intArg l))
-      if d.g.nodeCount ≥ d.m.ixMax then
-        (d', verdict (expect (if isTry then "err NodeIxLimit" else "panic") impl) ms impl)
+      let w := intArg l
+      let op : Op := if isTry then .tryAddNode w else .addNode w
+      if d.g.nodeCount = d.m.ixMax then mutate d f op 0 impl
       else
         let idStr := if isTry then (if impl.startsWith "ok " then (impl.drop 3).toString else "?") else impl
         match idStr.toNat? with
-        | none => (d', s!"SPECFAIL {f} below the index limit answered [{impl}]")
+        | none => ((runOp d op).1, s!"SPECFAIL {f} below the index limit answered [{impl}]")
         | some id =>
-          if d.g.live id then (d', s!"SPECFAIL {f} returned id {id}, which is a live node")
-          else ({ d' with g := d.g.addNode id (intArg l) }, verdict none ms impl)
-    | "remove_node" =>
-      let (d', ms) := runOp d (.removeNode a)
-      match d.g.nodeWeight a with
-      | some w => ({ d' with g := d.g.removeNode a }, verdict (expect (toString w) impl) ms impl)
-      | none => (d', verdict (expect "panic" impl) ms impl)
+          if d.g.live id then ((runOp d op).1, s!"SPECFAIL {f} returned id {id}, which is a live node")
+          else mutate d f op id impl
+    | "remove_node" => mutate d f (.removeNode a) 0 impl
     | "node_weight" =>
       let ms := match d.m.nodes.get a with | some w => toString w | none => "panic"
       let want := match d.g.nodeWeight a with | some w => toString w | none => "panic"
@@ -285,28 +345,24 @@ def step (d : DState) (req : List String) (impl : String) : DState × String :=
     | "get_node_weight" =>
       (d, verdict (expect (showOptInt (d.g.nodeWeight a)) impl) (showOptInt (d.m.nodes.get a)) impl)
     | "neighbors" =>
-      (d, verdict (judgeIds s!"neighbors({a})" impl ((d.g.succ a).map (·.1))) (showNats (neighborsOut d.m a)) impl)
+      (d, verdict (judgeIds s!"neighbors({a})" impl ((d.g.succAsc a).map (·.1))) (showNats (neighborsOut d.m a)) impl)
     | "edges" =>
-      (d, verdict (judgeEdgesOf s!"edges({a})" a impl (d.g.succ a) false) (showTriples (edgesOut d.m a)) impl)
+      (d, verdict (judgeEdgesOf s!"edges({a})" a impl (d.g.succAsc a) false) (showTriples (edgesOut d.m a)) impl)
     | _ => bad
   | [f, x, y] =>
     let a := natArg x
     match f with
-    | "node_weight_mut" =>
-      let w := intArg y
-      let (d', ms) := runOp d (.setNodeWeight a w)
-      if d.g.live a then ({ d' with g := d.g.setNodeWeight a w }, verdict (expect "ok" impl) ms impl)
-      else (d', verdict (expect "panic" impl) ms impl)
+    | "node_weight_mut" => mutate d f (.setNodeWeight a (intArg y)) 0 impl
     | "neighbors_directed" =>
       if y == "out" then
-        (d, verdict (judgeIds s!"neighbors_directed({a},Outgoing)" impl ((d.g.succ a).map (·.1))) (showNats (neighborsOut d.m a)) impl)
+        (d, verdict (judgeIds s!"neighbors_directed({a},Outgoing)" impl ((d.g.succAsc a).map (·.1))) (showNats (neighborsOut d.m a)) impl)
       else
-        (d, verdict (judgeIds s!"neighbors_directed({a},Incoming)" impl ((d.g.pred a).map (·.1))) (showNats (neighborsIn d.m a)) impl)
+        (d, verdict (judgeIds s!"neighbors_directed({a},Incoming)" impl ((d.g.predAsc a).map (·.1))) (showNats (neighborsIn d.m a)) impl)
     | "edges_directed" =>
       if y == "out" then
-        (d, verdict (judgeEdgesOf s!"edges_directed({a},Outgoing)" a impl (d.g.succ a) false) (showTriples (edgesOut d.m a)) impl)
+        (d, verdict (judgeEdgesOf s!"edges_directed({a},Outgoing)" a impl (d.g.succAsc a) false) (showTriples (edgesOut d.m a)) impl)
       else
-        (d, verdict (judgeEdgesOf s!"edges_directed({a},Incoming)" a impl (d.g.pred a) true) (showTriples (edgesIn d.m a)) impl)
+        (d, verdict (judgeEdgesOf s!"edges_directed({a},Incoming)" a impl (d.g.predAsc a) true) (showTriples (edgesIn d.m a)) impl)
     | _ =>
     let b := natArg y
     match f with
@@ -319,16 +375,8 @@ def step (d : DState) (req : List String) (impl : String) : DState × String :=
         | .ok (some w) => toString w | .ok none => "panic" | .error e => showFault e
       let want := match d.g.weight a b with | some w => toString w | none => "panic"
       (d, verdict (expect want impl) ms impl)
-    | "remove_edge" =>
-      let (d', ms) := runOp d (.removeEdge a b)
-      (match d.g.weight a b with
-      | some w => ({ d' with g := d.g.removeEdge a b }, verdict (expect (toString w) impl) ms impl)
-      | none => (d', verdict (expect "panic" impl) ms impl))
-    | "try_remove_edge" =>
-      let (d', ms) := runOp d (.tryRemoveEdge a b)
-      (match d.g.weight a b with
-      | some w => ({ d' with g := d.g.removeEdge a b }, verdict (expect s!"some {w}" impl) ms impl)
-      | none => (d', verdict (expect "none" impl) ms impl))
+    | "remove_edge" => mutate d f (.removeEdge a b) 0 impl
+    | "try_remove_edge" => mutate d f (.tryRemoveEdge a b) 0 impl
     | _ => bad
   | [f, x, y, z] =>
     let a := natArg x
@@ -337,54 +385,35 @@ def step (d : DState) (req : List String) (impl : String) : DState × String :=
     match edgeOpOf f a b w with
     | none => bad
     | some op =>
-      let (d', ms) := runOp d op
-      if f == "edge_weight_mut" then
+      let what := s!"{f}({a}, {b}, {w})"
+      if f == "add_edge" && validB d.m.nz d.g op && !(zeroRejected d.m.nz w) && (d.g.weight a b).isSome then
+        -- the documented panic on an existing edge: the property does not say which of the two weights the
+        -- edge has afterwards (`specStep`: the new one, as the code does); resolved by the next `erefs` line
+        let (d', ms) := runOp d op
         match d.g.weight a b with
-        | some _ =>
-          if zeroRejected d w then (d', "SPECFAIL harness: zero written through edge_weight_mut of a NotZero graph")
-          else ({ d' with g := d.g.setEdge a b w }, verdict (expect "ok" impl) ms impl)
-        | none => (d', verdict (expect "panic" impl) ms impl)
-      else if !(bothLive d a b) then (d', s!"SPECFAIL harness: {f} with an endpoint that is not a live node")
-      else
-        let old := d.g.weight a b
-        let g' := d.g.setEdge a b w
-        match f with
-        | "add_edge" =>
-          if zeroRejected d w then (d', verdict (expect "panic" impl) ms impl)
-          else (match old with
-            | some o => ({ d' with pend := some (key d.g.directed a b, o, w) }, verdict (expect "panic" impl) ms impl)
-            | none => ({ d' with g := g' }, verdict (expect "ok" impl) ms impl))
-        | "update_edge" =>
-          if zeroRejected d w then (d', verdict (expect "panic" impl) ms impl)
-          else ({ d' with g := g' }, verdict (expect (showOptInt old) impl) ms impl)
-        | "try_update_edge" | "add_or_update_edge" =>
-          if zeroRejected d w then (d', verdict (expect "panic" impl) ms impl)
-          else ({ d' with g := g' }, verdict (expect ("ok " ++ showOptInt old) impl) ms impl)
-        | "build_add_edge" =>
-          if old.isSome then (d', verdict (expect "false" impl) ms impl)
-          else if zeroRejected d w then (d', verdict (expect "panic" impl) ms impl)
-          else ({ d' with g := g' }, verdict (expect "true" impl) ms impl)
-        | "build_update_edge" =>
-          if zeroRejected d w then (d', verdict (expect "panic" impl) ms impl)
-          else ({ d' with g := g' }, verdict (expect "ok" impl) ms impl)
-        | _ => bad
+        | some o => ({ d' with pend := some (key d.g.directed a b, o, w) }, verdict (expect "panic" impl) ms impl)
+        | none => (d', "SPECFAIL driver")
+      else mutate d what op 0 impl
   | ["probe", f, x, y, z] =>
     -- an edge-writing call with an endpoint that is not a live node, undone by `try_remove_edge`;
-    -- outside the property's quantifier: exact comparison only
+    -- outside the property's quantifier: exact comparison only (`C04_probe_undone`: the state stays
+    -- inside the invariant and describes the same graph)
     let a := natArg x
     let b := natArg y
     match edgeOpOf f a b (intArg z) with
     | none => bad
     | some op =>
-      if bothLive d a b then (d, "SPECFAIL harness: probe between live nodes")
+      if f == "edge_weight_mut" then bad
+      else if bothLive d a b then (d, "SPECFAIL harness: probe between live nodes")
+      else if !(notEdgeB d.g a b) then (d, leftRange s!"probe {f}({a}, {b}) on an existing edge")
       else
         let (d1, s1) := runOp d op
         let (d2, s2) := runOp d1 (.tryRemoveEdge a b)
         (d2, cmpExact (s1 ++ " / " ++ s2) impl)
   | ["abort"] => (d, "SPECFAIL an observer or a call that must not panic panicked; the case was abandoned")
   | ["clear"] =>
-    let (d', ms) := runOp d .clear
-    ({ d' with g := d.g.clear, pend := none }, verdict (expect "ok" impl) ms impl)
+    let (d', v) := mutate d "clear" .clear 0 impl
+    ({ d' with pend := none }, v)
   | ["node_count"] =>
     (d, verdict (expect (toString d.g.nodeCount) impl) (toString d.m.nodes.len) impl)
   | ["edge_count"] =>
@@ -392,15 +421,15 @@ def step (d : DState) (req : List String) (impl : String) : DState × String :=
   | ["counts"] =>
     let ms := s!"n={d.m.nodes.len} e={d.m.nbEdges} b={d.m.nodes.upperBound}"
     let fs := splitWords impl
-    let spec :=
-      match (field fs "n").bind (·.toNat?), (field fs "e").bind (·.toNat?), (field fs "b").bind (·.toNat?) with
-      | some n, some e, some b =>
+    match (field fs "n").bind (·.toNat?), (field fs "e").bind (·.toNat?), (field fs "b").bind (·.toNat?) with
+    | some n, some e, some b =>
+      let spec :=
         if n != d.g.nodeCount then some s!"node_count = {n} but the graph has {d.g.nodeCount} nodes"
         else if e != d.g.edgeCount then some s!"edge_count = {e} but the graph has {d.g.edgeCount} edges"
         else if d.g.ids.any (· ≥ b) then some s!"node_bound = {b} does not exceed every live id {showNats (sortNat d.g.ids)}"
         else none
-      | _, _, _ => some s!"counts: unreadable answer [{impl}]"
-    (d, verdict spec ms impl)
+      ({ d with implNB := some (n, b) }, verdict spec ms impl)
+    | _, _, _ => (d, verdict (some s!"counts: unreadable answer [{impl}]") ms impl)
   | ["nodes"] =>
     let refs := nodeRefs d.m
     let ms := s!"ids={showNats d.m.nodes.ids} refs={showPairs refs}"
@@ -408,11 +437,12 @@ def step (d : DState) (req : List String) (impl : String) : DState × String :=
     let spec :=
       match (field fs "ids").bind parseNatList, (field fs "refs").bind parsePairs with
       | some ids, some rf =>
-        if sortNat ids != sortNat d.g.ids then
-          some s!"node_identifiers = {showNats ids} but the live nodes are {showNats (sortNat d.g.ids)}"
-        else if sortNI rf != sortNI d.g.nodes then
-          some s!"node_references = {showPairs rf} but the nodes are {showPairs (sortNI d.g.nodes)}"
-        else none
+        if ids == d.g.idsAsc && rf == d.g.nodesAsc then none
+        else if sortNat ids != d.g.idsAsc then
+          some s!"node_identifiers = {showNats ids} but the live nodes are {showNats d.g.idsAsc}"
+        else if sortNI rf != sortNI d.g.nodesAsc then
+          some s!"node_references = {showPairs rf} but the nodes are {showPairs d.g.nodesAsc}"
+        else some s!"iteration order: node_identifiers = {showNats ids} / node_references = {showPairs rf} have the right members but are not ascending"
       | _, _ => some s!"nodes: unreadable answer [{impl}]"
     (d, verdict spec ms impl)
   | ["erefs"] =>
@@ -429,8 +459,11 @@ def step (d : DState) (req : List String) (impl : String) : DState × String :=
               { d.g with edges := d.g.edges.map fun e => if e.1 == k then (k, n) else e } else d.g
           | none => d.g)
         | none => d.g
+      -- row-major = sorted by the normalised key (an undirected pair is judged up to its orientation)
       let want := sortKW g.edges
       let spec := if got == want then none
+        else if sortKW got == want then
+          some s!"iteration order: edge_references = [{impl}] has the right edges but is not row-major"
         else some s!"edge_references = [{impl}] but the edges are {showTriples (want.map fun (k, w) => (k.1, k.2, w))}"
       ({ d with g := g, pend := none }, verdict spec ms impl)
   | _ => bad
